@@ -88,7 +88,7 @@ def run(name, props):
     rc, out = sh(f"git apply --3way {patch} || git apply {patch}", cwd=REPO)
     if rc != 0:
         print("patch does not apply:", out)
-        sh("git checkout -- . && git reset -q", cwd=REPO)
+        sh("git reset -q --hard HEAD", cwd=REPO)
         return 2
     results = {}
     saved = {}
@@ -104,7 +104,7 @@ def run(name, props):
             results[p] = dict(exit=rc, violation_keys=keys[:10], wall_s=round(time.time() - t0), tail=out.strip().splitlines()[-1] if out.strip() else "")
             print(f"  {name} {p}: exit={rc} keys={keys[:4]}")
     finally:
-        sh("git reset -q && git checkout -- .", cwd=REPO)
+        sh("git reset -q --hard HEAD", cwd=REPO)
         for ep, txt in saved.items():
             open(ep, "w").write(txt)
     old = {}
